@@ -560,6 +560,9 @@ def apply_ref(rm, op):
         raise ValueError("unknown op %r" % (op,))
 
 
+# operations on values that are edits when inputs are involved (harmless on a cold twin)
+VALUE_EDIT_OPS = {"clear_at", "clear_all", "clear_all_space", "clear_all_model", "clear_items"}
+
 EDIT_OPS = {
     "new_space", "del_space", "rename_space", "add_bases", "remove_bases", "set_formula",
     "new_cells", "set_cells_formula", "del_cells", "rename_cells", "set_cached",
